@@ -145,6 +145,52 @@ def run(ck):
                 info[i] = ("fresh:%s" % desc, ops_cfg)
     ck.sample({"fresh_process_config": {"ttl_ns": 1, "interval_ns": 0}, "history": cl.hist_text(ops_cfg)})
 
+    # 2b. a setter whose FIRST call comes late - after a cached compilation has started the cleaner - with boundary values, and real
+    #     time passing afterwards (at least two sweeps): nothing may crash, compilations stay transparent, sweeps keep coming
+    late = []
+    for v in (0, -10 ** 9, 1, 10 ** 3, 3600 * 10 ** 9):
+        # (the first tick waits for two sweeps: the cleaner goroutine reads its interval when it first runs, which may be after the
+        #  next operation of this history - only then is "the cleaner is running with the old interval" a fact)
+        late.append((["-ttl", str(20 * 10 ** 6)], [R(0), TICK, {"op": "setinterval", "ns": v}, TICK, R(0), R(1), TICK, R(0)], "interval", v))
+        late.append((["-interval", str(5 * 10 ** 6)], [R(0), TICK, {"op": "setttl", "ns": v}, TICK, R(0), R(1), TICK, R(0)], "ttl", v))
+    ljobs = [(next(nid), a, h, which, v) for a, h, which, v in late]
+
+    def lwork(job):
+        i, a, h, which, v = job
+        res, crashed = cl.run_histories(hb, [(i, h)], None, procs=1, extra_args=a, timeout=120)
+        return job, res.get(i), crashed
+    with concurrent.futures.ThreadPoolExecutor(10) as ex:
+        for (i, a, h, which, v), r, crashed in ex.map(lwork, ljobs):
+            desc = {"process_args": a, "late_setter": which, "value_ns": v, "history_text": cl.hist_text(h)}
+            ck.count("late-setter:%s:%s" % (which, v), True, tags=["late-setter"])
+            if crashed or r is None:
+                failing.append((desc, "process crashed or hung when the %s setter is first called after the cleaner has started: %s" % (which, crashed[:1])))
+                continue
+            bad = cl.transparency_oracle(h, r)
+            if bad:
+                failing.append((dict(desc, observed=r), "late setter breaks transparency: " + bad[1]))
+            elif r.get("sweep_timeouts"):
+                failing.append((dict(desc, observed=r), "no sweep within 2 s although the running cleaner was started with a %s interval" % ("10 ms" if which == "interval" else "5 ms")))
+
+    # 2c. the same boundary durations through the command line (the process the user actually runs): every combination of
+    #     --cache-ttl / --cache-cleanup-interval values, with and without --debug, must exit 0 with the library's bytes
+    from checks import c20
+    cjobs = [{"doc": "valid", "content": c20.DOCS["valid"], "out": "stdout", "debug": dbg, "cache": True, "ttl": t, "interval": iv}
+             for t, iv, dbg in itertools.product(c20.TTLS, c20.IVS, [False, True])]
+    cjobs, cres, cerr = c20.explore(ck, cjobs)
+    if cerr:
+        failing.append(({"cli": "build"}, "the command-line binary does not build: " + cerr[-300:]))
+    else:
+        for j in cjobs:
+            r = cres.get(j["id"])
+            ck.count("cli:%s:%s:%s" % (j["ttl"], j["interval"], j["debug"]), True, tags=["cli-durations"])
+            why = "no result" if r is None or "exit" not in r else c20.direct_oracle(j, r)
+            if why:
+                failing.append(({"argv": ["compile", "in.mjml", "--cache"] + (["--debug"] if j["debug"] else []) +
+                                 (["--cache-ttl=" + j["ttl"]] if j["ttl"] else []) + (["--cache-cleanup-interval=" + j["interval"]] if j["interval"] else []),
+                                 "observed": {k: (r or {}).get(k) for k in ("exit", "exits", "stdout", "stderr_nonempty")}},
+                                "command line with these cache durations: " + why))
+
     # 3. random histories weighted towards time (model replay)
     n = 600 if ck.quick else 12000
     rnd = []
